@@ -560,6 +560,8 @@ def run(ctx):
     t0 = time.time()
     if 'A' in ctx.stages:
         stage_a(ctx)
+        from harness import lifecheck
+        lifecheck.stage_a(ctx, ctx.quick)
         ctx.note('stage A wall %.0fs' % (time.time() - t0))
     t1 = time.time()
     forced = {}
@@ -590,6 +592,10 @@ def run(ctx):
                         max_paths=8000)
         recs = stage_resp_b(ctx)
         judge_resp(ctx, recs, 'b')
+        # connection life cycle (AppLife.tla): which routes are registered on which connection when connections fail to
+        # open, end in the middle of the auto-registration, or are cancelled; only the command / handler variables
+        from harness import lifecheck
+        lifecheck.stage_b(ctx, 'C17', ctx.quick)
         ctx.note('stage B wall %.0fs (incl. learning)' % (time.time() - t1))
     t2 = time.time()
     if 'C' in ctx.stages:
@@ -612,6 +618,9 @@ def run(ctx):
 def replay(ctx, path):
     with open(path) as f:
         obj = json.load(f)
+    if obj.get('kind') == 'life':
+        from harness import lifecheck
+        return lifecheck.replay(ctx, obj)
     if obj.get('kind') == 'path':
         sc = Scenario(obj['front'], ['x', 'y'][:obj['routes']], obj['ncalls'], long_len=obj.get('long_len', 200),
                       variant=obj.get('variant', 0))
